@@ -471,6 +471,11 @@ class Gen:
         if p == "fine":
             return self.fine()
         if p == "motion":
+            if x > 0.97:
+                # a move hook comes and goes (added after seed C01j: with a hook registered the emitted line carried the absolute
+                # target in relative mode); hooks that only add a word of their own do not change where the tool goes
+                self.hook = not self.hook
+                return {"call": "add_probe_hook", "style": r.randrange(2)} if self.hook else {"call": "remove_probe_hook"}
             if not self.exact and x < 0.12:
                 return self.tracer()
             return self.motion() if x < 0.9 else (self.set_bounds() if x < 0.92 else self.modal())
